@@ -7,6 +7,7 @@ import gc
 import hashlib
 import itertools
 import logging
+import os
 import random
 import sys
 import traceback
@@ -103,8 +104,9 @@ def install_patches() -> None:
 def import_sdk() -> None:
     """Import the SDK under a fixed wall clock and make BackgroundService's task set ordered."""
     install_patches()
-    if "/repo/src" not in sys.path:
-        sys.path.insert(0, "/repo/src")
+    repo_src = os.environ.get("VERIF_REPO_SRC", "/repo/src")
+    if repo_src not in sys.path:
+        sys.path.insert(0, repo_src)
     with time_machine.travel(IMPORT_EPOCH, tick=False):
         import frequenz.sdk.actor._background_service as bs
         import frequenz.sdk.microgrid  # noqa: F401
@@ -119,8 +121,8 @@ def import_sdk() -> None:
     import frequenz.sdk
 
     src = frequenz.sdk.__file__ or ""
-    if not src.startswith("/repo/src/"):
-        raise RuntimeError(f"SDK imported from {src}, not from /repo/src")
+    if not src.startswith(repo_src.rstrip("/") + "/"):
+        raise RuntimeError(f"SDK imported from {src}, not from {repo_src}")
 
 
 class Sim:
